@@ -81,6 +81,32 @@ func c05Case(r *evid.Run, tier string, idx int, g *rng.R) {
 		p := xast.Abs(xast.S("child", xast.NameT("", "r")), xast.S("child", xast.NameT("", "v"), cond))
 		pool = append(pool, operand{ns, lib, fmt.Sprintf("node-set:%d", len(ns)), p})
 	}
+	// node-sets taken from a second document (same positions, different values): comparisons are
+	// by string-value, never by position or identity
+	vals2 := append([]string{}, vals...)
+	rng.Shuffle(g, vals2)
+	d2, vnodes2 := valueDoc(vals2)
+	if w2, err2 := newWorld(d2); err2 == nil {
+		for i := 0; i < 4; i++ {
+			var pick []*adoc.Node
+			for j := g.Intn(4); j >= 0; j-- {
+				pick = append(pick, vnodes2[g.Intn(len(vnodes2))])
+			}
+			if i == 0 && len(pool) > 1 {
+				// the same positions as an operand of the first document
+				pick = nil
+				for _, n := range pool[1].model.(refeval.NodeSet) {
+					for k, vn := range vnodes {
+						if vn == n {
+							pick = append(pick, vnodes2[k])
+						}
+					}
+				}
+			}
+			ns := refeval.NodeSet(adoc.SortDoc(pick))
+			pool = append(pool, operand{ns, w2.m.Lib(ns), fmt.Sprintf("node-set(other document):%d", len(ns)), nil})
+		}
+	}
 	for i := 0; i < 6; i++ {
 		f := genDouble(g)
 		pool = append(pool, operand{f, xsel.Number(f), "number:" + dclass(f), nil})
